@@ -53,7 +53,10 @@ class C06(Check):
                                                                           (33, 128)]),
                                                          st.tuples(st.integers(24, 70), st.integers(100, 300))),
                                           via=st.sampled_from(['build', 'build', 'setters', 'setters', 'scaled']),
-                                          detune=st.sampled_from(['all', 'conic', 'radius', 'index', 'thickness'])))
+                                          detune=st.sampled_from(['all', 'conic', 'radius', 'index', 'thickness']),
+                                          # the singlet in a catalogue (dispersive) glass, stigmatic at a wavelength of
+                                          # the lens that is not its primary one (0: no)
+                                          cat=st.integers(0, 3), cat_glass=st.integers(0, 1000), wl2=f(0.45, 0.7)))
 
     # ------------------------------------------------------------------
     def check(self, case, out):
@@ -65,7 +68,7 @@ class C06(Check):
         """Trace the pupil bundle on axis and evaluate the clauses.  P: image point (global), n_img: index of the
         medium in which the rays finally travel."""
         o = self.construct(case, sp, out)
-        w = sp['wls'][0]
+        w = sp.get('analyse_wl', sp['wls'][0])
         px, py = pupil_points()
         o.trace_generic(np.zeros_like(px), np.zeros_like(px), px.copy(), py.copy(), w)
         sg = o.surface_group
@@ -224,6 +227,17 @@ class C06(Check):
 
     def do_plano_hyperbolic(self, case, out):
         n = case['n']
+        mat, wls, prim, w = glass(n), (round(case['wl'], 6),), 0, None
+        if case.get('cat') == 1 and abs(case['wl'] - case.get('wl2', case['wl'])) > 0.02:
+            # catalogue glass: the conic is -n(w)^2 for the second wavelength of the lens, the primary one is another
+            from vf.gen import lens as GL
+            gl = GL.glasses()
+            mat = dict(gl[case['cat_glass'] % len(gl)])
+            w = round(case['wl'], 6)
+            wls, prim = (round(case['wl2'], 6), w), 0
+            n = GL.mat_index(mat, w)
+            case = dict(case, via='build')
+            out.cls('catalogue_glass_at_non_primary_wavelength')
         R = -case['R']                      # exit surface convex towards the image
         k = -n * n
         fl = R / (1 - n)
@@ -233,8 +247,10 @@ class C06(Check):
         h = case['fill'] * 0.95 * 3.0 * abs(R) / n
         tc = 0.1 * abs(R) + abs(R) * 0 + self.sag(R, k, h) * -1 + 0.05 * abs(R)
         tc = max(tc, 0.05 * abs(R))
-        sp = spec([surf(R='inf', t=tc, mat=glass(n), stop=True), surf(R=R, k=k, t=fl)], ap=('EPD', 2 * h), fields=(0.0,),
-                  wls=(round(case['wl'], 6),))
+        sp = spec([surf(R='inf', t=tc, mat=mat, stop=True), surf(R=R, k=k, t=fl)], ap=('EPD', 2 * h), fields=(0.0,),
+                  wls=wls, prim=prim)
+        if w is not None:
+            sp['analyse_wl'] = w
         self.run(out, case, sp, (0.0, 0.0, tc + fl), 1.0, True, max(1.0, abs(R), abs(fl)))
 
     @staticmethod
